@@ -189,9 +189,29 @@ def strat_restart(draw):
             'sel': sel, 'a': ra, 'b': rb}
 
 
+def enum_small(tier):
+    """every value of the small scopes x every remove_formatting call of the same scope (plus None = everything)"""
+    for names, depth, text in gen.small_scopes(tier):
+        sels = [[{'k': 'name', 'v': nm}] for nm in names] + [None]
+        rngs = gen.small_ranges(len(text))
+        for i, p in enumerate(gen.small_values(names, depth, text)):
+            if not p['ops']:
+                continue
+            for sel in sels:
+                for a, b in rngs:
+                    yield {'p': p, 'sel': sel, 'a': a, 'b': b}
+            if i % 7 == 0:
+                q = dict(p, cls='s')
+                for a, b in rngs[::2]:
+                    yield {'p': q, 'sel': sels[0], 'a': a, 'b': b}
+
+
 SUBS = [
     Sub('remove_after_restart', eval_remove, strategy=strat_restart, quick=400, thorough=6000,
         rule='remove_formatting on values with restart pairs (below-insert followed by topmost applications across its start)'),
+    Sub('small_exhaustive', eval_remove, enumerate=enum_small,
+        rule='every value reachable from a plain text by <= 2 apply/remove steps over {red, blue, bold} on 3 characters and by <= 3 steps over {red, blue} on 2 characters (thorough: 3) - all ranges, topmost both ways, x every remove_formatting call of the same scope and remove-all',
+        exhaustive_note='all values of the small scopes x all remove_formatting calls of that scope'),
     Sub('remove', eval_remove, strategy=strat, quick=500, thorough=8000),
     Sub('remove_conflict', eval_remove, strategy=strat_conflict, quick=600, thorough=10000,
         rule='small values with staggered conflicting / equal settings; selection picked from the value; in-range bounds'),
